@@ -72,7 +72,8 @@ pub struct Mat { pub m: Ghost<int> }
 impl Mat {
     #[verifier::external_body] pub fn swap_rows(&mut self, i: usize, j: usize) ensures final(self).m@ == mmul(e_swap(i as int, j as int), old(self).m@) { unimplemented!() }
     #[verifier::external_body] pub fn swap_cols(&mut self, i: usize, j: usize) ensures final(self).m@ == mmul(old(self).m@, e_swap(i as int, j as int)) { unimplemented!() }
-    #[verifier::external_body] pub fn mul_row(&mut self, i: usize, u: &ER) ensures final(self).m@ == mmul(e_scale(i as int, u.v()), old(self).m@) { unimplemented!() }
+    /// (also entry level: row i is multiplied by u, every other row is unchanged)
+    #[verifier::external_body] pub fn mul_row(&mut self, i: usize, u: &ER) ensures final(self).m@ == mmul(e_scale(i as int, u.v()), old(self).m@), scaled_row(old(self).m@, final(self).m@, i as int, u.v()) { unimplemented!() }
     #[verifier::external_body] pub fn mul_col(&mut self, i: usize, u: &ER) ensures final(self).m@ == mmul(old(self).m@, e_scale(i as int, u.v())) { unimplemented!() }
     /// "Multiply [a, b; c, d] from left"
     #[verifier::external_body] pub fn left_elementary(&mut self, comps: [&ER; 4], i: usize, j: usize)
@@ -84,6 +85,24 @@ impl Mat {
     #[verifier::external_body] pub fn at(&self, i: usize, j: usize) -> (r: &ER) ensures r.v() == mat_at(self.m@, i as int, j as int) { unimplemented!() }
 }
 pub uninterp spec fn mat_at(m: int, i: int, j: int) -> int;
+pub uninterp spec fn mat_nr(m: int) -> int;
+pub uninterp spec fn mat_nc(m: int) -> int;
+pub open spec fn scaled_row(m0: int, m1: int, i: int, u: int) -> bool {
+    forall|a: int, b: int| #[trigger] mat_at(m1, a, b) == (if a == i { rmul(u, mat_at(m0, a, b)) } else { mat_at(m0, a, b) })
+}
+/// diagonal entries, the first zero among them, and the divisibility chain below it
+pub open spec fn dg(m: int, i: int) -> int { mat_at(m, i, i) }
+pub open spec fn chain(m: int, r: int) -> bool { forall|i: int| 0 <= i && i + 1 < r ==> dvd(#[trigger] dg(m, i), dg(m, i + 1)) }
+/// u a | b and a | u b for a unit u, when a | b
+pub proof fn lemma_dvd_unit(u: int, a: int, b: int) requires is_unit(u), dvd(a, b) ensures dvd(rmul(u, a), b), dvd(a, rmul(u, b)) {
+    let w = choose|w: int| #[trigger] rmul(u, w) == r1(); let k = choose|k: int| b == #[trigger] rmul(k, a);
+    // b = k a = (k w)(u a)
+    ax_mul_assoc(rmul(k, w), u, a); ax_mul_assoc(k, w, u); ax_mul_comm(w, u); ax_mul_one(k);
+    assert(b == rmul(rmul(k, w), rmul(u, a)));
+    // u b = (u k) a
+    ax_mul_assoc(u, k, a);
+    assert(rmul(u, b) == rmul(rmul(u, k), a));
+}
 impl Mat { pub open spec fn at_spec(&self, i: usize, j: usize) -> int { mat_at(self.m@, i as int, j as int) } }
 
 //@item struct/SnfCalc subst=Mat<R>:Mat
@@ -155,6 +174,7 @@ impl SnfCalc {
 //@endif
         ensures exists|w: int| (old(self).pinv.is_some() ==> rmul(u.v(), w) == r1()) && #[trigger] row_op(*old(self), *final(self), e_scale(i as int, u.v()), e_scale(i as int, w)),
             forall|a0: int| pq_ok(*old(self), a0) ==> pq_ok(*final(self), a0),
+            scaled_row(old(self).target.m@, final(self).target.m@, i as int, u.v()),
     //@body impl/SnfCalc/mul_row
     //@+ sig
     //@| fn mul_row(&mut self, i: usize, u: &R)
@@ -228,8 +248,8 @@ pub proof fn lemma_unimodular(x: int, y: int, d: int, s: int, t: int)
 }
 
 impl Mat {
-    #[verifier::external_body] pub fn ncols(&self) -> (r: usize) { unimplemented!() }
-    #[verifier::external_body] pub fn nrows(&self) -> (r: usize) { unimplemented!() }
+    #[verifier::external_body] pub fn ncols(&self) -> (r: usize) ensures r == mat_nc(self.m@) { unimplemented!() }
+    #[verifier::external_body] pub fn nrows(&self) -> (r: usize) ensures r == mat_nr(self.m@) { unimplemented!() }
 }
 impl SnfCalc {
     /// SnfCalc::gcdx: contract proved in unit snf_gcdx (re-stated; the body is verified there)
@@ -337,31 +357,55 @@ impl SnfCalc {
     #[verifier::external_body] pub fn preprocess(&mut self)
         ensures same_flags(*old(self), *final(self)), forall|a0: int| pq_ok(*old(self), a0) ==> pq_ok(*final(self), a0) { unimplemented!() }
 
-    /// the diagonal normalisation as a whole: whatever it does, it does through tracked operations
+    /// the diagonal normalisation as a whole: it works through tracked operations, and when it returns the diagonal entries above the
+    /// first zero form a divisibility chain  d_0 | d_1 | ... | d_{r-1}
     #[verifier::exec_allows_no_decreases_clause]
     pub fn diag_normalize(&mut self)
         ensures same_flags(*old(self), *final(self)), forall|a0: int| pq_ok(*old(self), a0) ==> pq_ok(*final(self), a0),
+            exists|r: int| 0 <= r && (forall|j: int| 0 <= j < r ==> #[trigger] dg(old(self).target.m@, j) != r0())
+                && (r == (if mat_nr(old(self).target.m@) <= mat_nc(old(self).target.m@) { mat_nr(old(self).target.m@) } else { mat_nc(old(self).target.m@) }) || dg(old(self).target.m@, r) == r0())
+                && #[trigger] chain(final(self).target.m@, r),
     //@body impl/SnfCalc/diag_normalize ring=1 index2=1 for_range=1 for_iter=1 machine=n,r,i loops=4 subst=min:umin_
     //@+ sig
     //@| fn diag_normalize(&mut self)
+    //@+ pre-raw
+    //@| let ghost m0 = self.target.m@;
     //@+ loop 0 header
     //@| (0..n).filter(|&i|
     //@+ loop 0
-    //@| invariant __it0 <= __hi0, __hi0 == n, __found0.is_some() ==> __found0.unwrap() < n,
+    //@| invariant_except_break __found0.is_none(), forall|j: int| 0 <= j < __it0 ==> #[trigger] dg(m0, j) != r0(),
+    //@| invariant __it0 <= __hi0, __hi0 == n, self.target.m@ == m0,
+    //@| ensures __found0.is_some() ==> (__found0.unwrap() < n && dg(m0, __found0.unwrap() as int) == r0() && forall|j: int| 0 <= j < __found0.unwrap() ==> #[trigger] dg(m0, j) != r0()),
+    //@|     __found0.is_none() ==> forall|j: int| 0 <= j < n ==> #[trigger] dg(m0, j) != r0(),
+    //@+ after-let r
+    //@| assert(forall|j: int| 0 <= j < r ==> #[trigger] dg(m0, j) != r0());
+    //@| assert(r == n || dg(m0, r as int) == r0());
+    //@| assert(chain(m0, 0));
     //@+ loop 1 header
     //@| 'outer: loop
     //@+ loop 1
     //@| invariant r >= 1, r <= n, same_flags(*old(self), *self), forall|a0: int| pq_ok(*old(self), a0) ==> pq_ok(*self, a0),
+    //@| ensures chain(self.target.m@, r as int), same_flags(*old(self), *self), forall|a0: int| pq_ok(*old(self), a0) ==> pq_ok(*self, a0),
     //@+ loop 2 header
     //@| for i in 0..r-1
     //@+ loop 2
-    //@| invariant r >= 1, r <= n, __hi2 == r - 1, same_flags(*old(self), *self), forall|a0: int| pq_ok(*old(self), a0) ==> pq_ok(*self, a0),
+    //@| invariant r >= 1, r <= n, __hi2 == r - 1, __it2 <= __hi2, same_flags(*old(self), *self), forall|a0: int| pq_ok(*old(self), a0) ==> pq_ok(*self, a0),
+    //@|     forall|i2: int| 0 <= i2 < __it2 ==> dvd(#[trigger] dg(self.target.m@, i2), dg(self.target.m@, i2 + 1)),
     //@+ loop 3 header
     //@| for i in 0..r
     //@+ loop 3
-    //@| invariant same_flags(*old(self), *self), forall|a0: int| pq_ok(*old(self), a0) ==> pq_ok(*self, a0),
+    //@| invariant same_flags(*old(self), *self), forall|a0: int| pq_ok(*old(self), a0) ==> pq_ok(*self, a0), chain(self.target.m@, r as int), __hi3 == r,
     //@+ after-let u
     //@| ax_nunit_unit(self.target.at_spec(i, i));
+    //@| gu = u.v();
+    //@+ loop 3 begin-raw
+    //@| let ghost mb = self.target.m@; let ghost mut gu = r1();
+    //@+ loop 3 end
+    //@| let m1 = self.target.m@;
+    //@| assert forall|i2: int| 0 <= i2 && i2 + 1 < r implies dvd(#[trigger] dg(m1, i2), dg(m1, i2 + 1)) by {
+    //@|     assert(dvd(dg(mb, i2), dg(mb, i2 + 1)));
+    //@|     if m1 != mb { assert(scaled_row(mb, m1, i as int, gu)); lemma_dvd_unit(gu, dg(mb, i2), dg(mb, i2 + 1)); }
+    //@| }
 
     /// the whole reduction
     #[verifier::exec_allows_no_decreases_clause]
